@@ -457,31 +457,24 @@ def check_evaluator_slots(ctx):
     for slot, text in simple.items():
         if slot in got2:
             ctx.check(got2[slot] == expected(text), "_eval_at_control slot %s" % slot, detail="slot fed from the wrong element", expected=expected(text), found=got2[slot], fi=f2, node=calls2[0])
-    # interval quantities at node N take the last interval
-    for slot, a, b in (("u", "self.U[-1]", "self.U[%s]" % k2),
-                       ("p_control", "self.get_p_control_at(stage,%s-1)" % k2, "self.get_p_control_at(stage,%s)" % k2),
-                       ("v_control", "self.get_v_control_at(stage,%s-1)" % k2, "self.get_v_control_at(stage,%s)" % k2)):
+    # interval quantities at node N take the last interval: the slot expression is instantiated at an inner node, at the
+    # final node (k == len(U)) and at the alias k == -1; spellings do not matter (U[-1] / U[k-1] / U[k_interval])
+    from ..ceval import instance_text
+    sc2 = ctx.scope(f2)
+    NU = 4
+    for slot, elem in (("u", "self.U[%d]"), ("p_control", "self.get_p_control_at(stage,%d)"), ("v_control", "self.get_v_control_at(stage,%d)")):
         if slot not in got2:
             continue
-        at = n2.single([kw.value for kw in calls2[0].keywords if kw.arg == slot][0])
-        ok = False
-        found = str(got2[slot])
-        if at is not None and at.kind == "ifexp":
-            sc2 = ctx.scope(f2)
-            tn = at.parts["test_node"]
+        node = [kw.value for kw in calls2[0].keywords if kw.arg == slot][0]
+        inst = {}
+        for label, kk in (("inner", 1), ("final", NU), ("alias", -1)):
             try:
-                t_final = bool(ceval(tn, {k2: 4, "len(self.U)": 4}))
-                t_inner = bool(ceval(tn, {k2: 1, "len(self.U)": 4}))
-                t_alias = bool(ceval(tn, {k2: -1, "len(self.U)": 4}))
+                inst[label] = instance_text(node, {k2: kk, "len(self.U)": NU, "self.N": NU}, sc2, lens={"self.U": NU})
             except Unknown:
-                t_final = t_inner = t_alias = None
-            body, orelse = at.parts["body"], at.parts["orelse"]
-            at_final = body if t_final else orelse
-            at_inner = body if t_inner else orelse
-            at_alias = body if t_alias else orelse
-            ok = t_final is not None and at_final == expected(a) and at_inner == expected(b) and at_alias in (expected(b), expected(a))
+                inst[label] = None
+        ok = inst["inner"] == elem % 1 and inst["final"] == elem % (NU - 1) and inst["alias"] in (elem % (NU - 1), elem % -1)
         ctx.check(ok, "_eval_at_control slot %s" % slot, detail="per-interval quantity at the final node must take the last interval",
-                  expected="%s at node N, %s otherwise" % (a, b), found=found, fi=f2, node=calls2[0])
+                  expected="element k at an inner node, element N-1 at node N (and at the alias k=-1)", found="inner: %s; node N: %s; k=-1: %s" % (inst["inner"], inst["final"], inst["alias"]), fi=f2, node=calls2[0])
     check_branch_slot(ctx, f2, calls2[0], "xq", {
         (("self.Q", True),): "self.Q[%s]" % k2,
         (("self.Q", False), ("(-1 == %s)" % k2, True)): "self.q",
